@@ -238,12 +238,16 @@ class DnsRecordDnskey(ParsableBase, Serializable):
         key_params = key.params
         key_size = key.key_size // 8
 
-        key_composer.compose_numeric((key_size - 64) // 8, 1)
+        # P, G and Y are 64 + T * 8 octets wide each (RFC 2536 2), a prime that needs fewer octets gets leading zeros
+        size_parameter = max(0, (key_size - 64 + 7) // 8)
+        mpint_length = 64 + size_parameter * 8
+
+        key_composer.compose_numeric(size_parameter, 1)
         key_composer.compose_mpint(key_params.order, 20)
 
-        key_composer.compose_mpint(key_params.prime, key_size)
-        key_composer.compose_mpint(key_params.generator, key_size)
-        key_composer.compose_mpint(key_params.public_key_value, key_size)
+        key_composer.compose_mpint(key_params.prime, mpint_length)
+        key_composer.compose_mpint(key_params.generator, mpint_length)
+        key_composer.compose_mpint(key_params.public_key_value, mpint_length)
 
     @staticmethod
     def compose_key(key):
